@@ -114,13 +114,21 @@ func c08Constructs() []c08Construct {
 	cs = append(cs, c08Construct{"embed with an overriding block", func(b *c08Builder, in c08SO, id int) c08SO {
 		return c08SO{"{% embed 'c08emb' %}{% block eb %}" + in.src + "{% endblock %}{% endembed %}", "<e>" + in.out + "</e>"}
 	}})
+	// bodies that begin and end with line breaks: captured text is taken as it is
+	cs = append(cs, c08Construct{"set-capture whose body begins and ends with a line break", func(b *c08Builder, in c08SO, id int) c08SO {
+		n := "c" + itoa(id)
+		return c08SO{"{% set " + n + " %}\n" + in.src + "\r\n{% endset %}<{{ " + n + " }}>", "<\n" + in.out + "\r\n>"}
+	}})
+	cs = append(cs, c08Construct{"filter section whose body begins with a line break", func(b *c08Builder, in c08SO, id int) c08SO {
+		return c08SO{"{% filter wrap %}\n" + in.src + "\n{% endfilter %}", "[\n" + in.out + "\n]"}
+	}})
 	return cs
 }
 
 const c08MacroIdx = 14
 const c08EmbedIdx = 22
 
-var c08Leaves = []c08SO{{"t", "t"}, {"{{ v }}", "V"}, {"{{ parent() }}", "BVP"},
+var c08Leaves = []c08SO{{"t", "t"}, {"{{ v }}", "V"}, {"{{ parent() }}", "M[BVP]"},
 	// a capture whose body is exactly one print: the variable holds the printed text (a string), not the value
 	{"{% set q %}{{ v }}{% endset %}{{ kind(q) }}", "<string:V>"},
 	{"{% set q %}{{ n }}{% endset %}{{ kind(q) }}{{ q|kind }}{% set q2 %}{{ nil }}{% endset %}{{ kind(q2) }}", "<string:0><string:0><string:>"},
@@ -200,7 +208,8 @@ func c08Build(inherit bool, chains [][]int, leaves []int) (tpls map[string]strin
 		return map[string]string{
 			"c08emb":  c08Emb,
 			"c08base": c08Base,
-			"main":    "{% extends 'c08base' %}ignored{% block main %}" + body.src + "{% endblock %}ignored too",
+			"c08mid":  "{% extends 'c08base' %}{% block main %}M[{{ parent() }}]{% endblock %}", // its parent() runs inside the child's parent()
+			"main":    "{% extends 'c08mid' %}ignored{% block main %}" + body.src + "{% endblock %}ignored too",
 		}, "<<" + body.out + ">>", true
 	}
 	return map[string]string{"main": b.macros.String() + body.src, "c08emb": c08Emb}, body.out, true
@@ -326,7 +335,7 @@ func c08Levels(tier string) []core.Level {
 	n := len(c08Constructs())
 	lv := []core.Level{
 		{Name: fmt.Sprintf("plain template: every nesting chain of depth <= %d over %d constructs x 4 leaves (text, print, a capture of exactly one print observed through a type-revealing callback x 2; the last two to depth 3), unique markers at every level, trailing marker", depth, n), Gen: func(emit func(core.Case)) { c08GenChains(depth, 0, emit) }},
-		{Name: fmt.Sprintf("inside an overriding block of a two-level inheritance host (parent() as a leaf): every chain of depth <= %d", depth), Gen: func(emit func(core.Case)) { c08GenChains(depth, 1, emit) }},
+		{Name: fmt.Sprintf("inside an overriding block of a three-level inheritance host (parent() as a leaf, the middle level calling parent() itself): every chain of depth <= %d", depth), Gen: func(emit func(core.Case)) { c08GenChains(depth, 1, emit) }},
 		{Name: "siblings: every pair of depth <= 2 chains side by side (a capture that does not restore the writer shows in the second)", Gen: func(emit func(core.Case)) {
 			var chains [][]int
 			for a := 0; a < n; a++ {
